@@ -159,6 +159,13 @@ C16_Store == \A s \in SelSubs :
     /\ \A i \in 1..(Len(h.ntf[s]) - 1) : h.ntf[s][i].st # h.ntf[s][i + 1].st
     /\ \A i \in 1..Len(h.ntf[s]) : \E k \in 1..Len(h.exp) : h.exp[k].a = h.ntf[s][i].a /\ SelVal(h.exp[k].st) = h.ntf[s][i].st
 
+(* Liveness, checked under Spec (weak fairness of every thread's step): every public call returns, *)
+(* and a sender that waits for room gets it (C05 "resumes as soon as the reducer makes room",     *)
+(* C13 "every call returns", C04/C10 "flush")                                                     *)
+Live_ClientsDone == <>ClientsDone
+Live_SendResumes == \A t \in Clients : (pc[t] = "send") ~> (pc[t] # "send")
+Live_StopReturns == \A t \in Clients : (pc[t] \in {"join", "stop.drain"}) ~> (pc[t] \notin {"join", "stop.drain"})
+
 (* C18: metrics *)
 C18_Monotone == [][\A k \in DOMAIN m : m'[k] >= m[k]]_vars
 C18_Balance == Quiet =>
